@@ -295,7 +295,7 @@ def check(prog, ctx):
              'or static members, no user-declared copy/move operations on the interpolation classes', 6)
     ctx.rule('C09.e', 'Set_Prefactor/Multiply change all outputs by exactly the stated factor: every value returned by Interpolate and '
              'Derivative (all orders) is of degree exactly one in the prefactor (a delegated Interpolate(x) counts as degree one)', 2)
-    prefactor_degree(prog, ctx)
+    ctx.sub('prefactor_degree', prefactor_degree, prog, ctx)
     loc = prog.fn(CLS + '::Locate')
     cache = sorted(field_writes(loc))
     if not cache:
@@ -366,7 +366,7 @@ def check(prog, ctx):
     ctx.decide('C09.a', 'Interpolation_2D:helpers', prog.fn(CLS2 + '::Interpolate'), not bad2 and len(helper_fields) == 2,
                'helper objects %s are used only through Locate' % helper_fields, 'helper objects used otherwise: %s' % bad2)
 
-    search_rules(prog, ctx, loc, closure)
+    ctx.sub('search_rules', search_rules, prog, ctx, loc, closure)
 
     # ---- C09.d nothing else is state
     for cq in (CLS, CLS2):
